@@ -449,3 +449,314 @@ theorem proj_roundtrip (cfg : Cfg) (hh : cfg.r (1/2) = 1/2) (h1 : cfg.r 1 = 1) (
             (by simp [hw]) (by simp [delayMsSem, (delayMs_ok hd).2])
 
 end NmlVerif.Hdf5
+
+/-! ## electrical and continuous projections -/
+
+namespace NmlVerif.Hdf5
+set_option linter.unusedSimpArgs false
+
+theorem projHdr_elec (cfg : Cfg) (id pre post s : String) :
+    projHdr cfg (projAttrs id "electricalProjection" pre post ++ [("synapse", .str s)]) =
+      .ok ⟨id, "electricalProjection", pre, post, s, ""⟩ := by
+  simp [projHdr, strAttr, lookupAttr, projAttrs]
+
+theorem projHdr_cont (cfg : Cfg) (id pre post pc s : String) :
+    projHdr cfg (projAttrs id "continuousProjection" pre post ++ [("preComponent", .str pc), ("postComponent", .str s)]) =
+      .ok ⟨id, "continuousProjection", pre, post, s, pc⟩ := by
+  simp [projHdr, strAttr, lookupAttr, projAttrs]
+
+theorem filter_map_sem {α β γ : Type} (D : α → β) (S : α → γ) (q : β → Bool) (q' : γ → Bool) (f : β → γ) :
+    ∀ (all : List α), (∀ c ∈ all, q (D c) = q' (S c)) → (∀ c ∈ all, q (D c) = true → f (D c) = S c) →
+      ((all.map D).filter q).map f = (all.map S).filter q'
+  | [], _, _ => rfl
+  | c :: cs, hq, hf => by
+    have ih := filter_map_sem D S q q' f cs (fun x hx => hq x (by simp [hx])) (fun x hx => hf x (by simp [hx]))
+    simp only [List.map_cons, List.filter_cons, ← hq c (by simp)]
+    cases hqc : q (D c)
+    · simpa using ih
+    · simp [hf c (by simp) hqc, ih]
+
+structure GConnOK (r : Rat → Rat) (pre post : String) (c : Conn) : Prop where
+  exact : ConnExact r c
+  idExact : Exact r c.id
+  refs : RefOK pre c.pre ∧ RefOK post c.post
+  delay : c.delay = ⟨0, .ms⟩
+
+def GProj.all (p : GProj) : List Conn := p.plain ++ p.insts ++ p.instWs
+
+def wOf (c : Conn) : Rat := c.weight.getD 1
+
+theorem decode_gRowU (cfg : Cfg) (h1 : cfg.r 1 = 1) (hu : cfg.unweighted = 1) (hid0 : cfg.idCol0 = true)
+    (w : Bool) (i : Nat) (c : Conn) (hx : ConnExact cfg.r c) (hxi : Exact cfg.r c.id) :
+    decodeConnRow cfg (gCols w) i (gRowU cfg w c) = .ok (rowOf cfg.r c.id c (cfg.r 1) 0) := by
+  obtain ⟨e1, e2, e3, e4, e5, e6, e7, e8, e9⟩ := colIdx_g w
+  have t0 := trunc_exact hxi
+  have t1 := trunc_exact hx.pre
+  have t2 := trunc_exact hx.post
+  have t3 := trunc_exact hx.preSeg
+  have t4 := trunc_exact hx.postSeg
+  unfold decodeConnRow
+  rw [e1, e2, e3, e4, e5, e6, e7, e8, e9]
+  cases w
+  · simp [rowOf, gRowU, gRowBase, sfCells, cell, cellOr, cellReq, bind, Except.bind, pure, Except.pure, Except.map, hid0, t0, t1, t2, t3, t4, h1]
+  · simp [rowOf, gRowU, gRowBase, sfCells, cell, cellOr, cellReq, bind, Except.bind, pure, Except.pure, Except.map, hid0, t0, t1, t2, t3, t4, hu]
+
+theorem decode_gRowW (cfg : Cfg) (hid0 : cfg.idCol0 = true)
+    (i : Nat) (c : Conn) (x : Rat) (hx : ConnExact cfg.r c) (hxi : Exact cfg.r c.id) :
+    decodeConnRow cfg (gCols true) i (gRowBase cfg c ++ [cfg.r x]) = .ok (rowOf cfg.r c.id c (cfg.r x) 0) := by
+  obtain ⟨e1, e2, e3, e4, e5, e6, e7, e8, e9⟩ := colIdx_g true
+  have t0 := trunc_exact hxi
+  have t1 := trunc_exact hx.pre
+  have t2 := trunc_exact hx.post
+  have t3 := trunc_exact hx.preSeg
+  have t4 := trunc_exact hx.postSeg
+  unfold decodeConnRow
+  rw [e1, e2, e3, e4, e5, e6, e7, e8, e9]
+  simp [rowOf, gRowBase, sfCells, cell, cellOr, cellReq, bind, Except.bind, pure, Except.pure, Except.map, hid0, t0, t1, t2, t3, t4]
+
+
+theorem mapIdxE_map_ok' {α ρ β : Type} {f : Nat → ρ → Except Err β} {e : α → ρ} {g : α → β} (n : Nat) (l : List α)
+    (h : ∀ i a, a ∈ l → f i (e a) = .ok (g a)) : mapIdxE f n (l.map e) = .ok (l.map g) := by
+  rw [← zipIdx_const g n l]
+  exact mapIdxE_map_ok n l h
+
+structure GOK (cfg : Cfg) (cont : Bool) (p : GProj) : Prop where
+  conn : ∀ c ∈ p.all, GConnOK cfg.r p.pre p.post c
+  unw : ∀ c ∈ p.plain ++ p.insts, c.weight = none
+  wset : cont = true → ∀ c ∈ p.instWs, ∃ w, c.weight = some w
+  elecPre : cont = false → ∀ c ∈ p.all, c.preComp = ""
+
+def gRowW (cfg : Cfg) (c : Conn) : List Rat := gRowBase cfg c ++ [cfg.r (wOf c)]
+
+def wFlag (p : GProj) : Bool := !p.instWs.isEmpty
+
+def encRowsG (cfg : Cfg) (p : GProj) : List (List Rat) :=
+  (p.plain ++ p.insts).map (gRowU cfg (wFlag p)) ++ p.instWs.map (gRowW cfg)
+
+def gAttrs (cont : Bool) (p : GProj) (c0 : Conn) : Attrs :=
+  if cont then projAttrs p.id "continuousProjection" p.pre p.post ++
+               [("preComponent", .str c0.preComp), ("postComponent", .str c0.syn)]
+  else projAttrs p.id "electricalProjection" p.pre p.post ++ [("synapse", .str c0.syn)]
+
+theorem encodeGProj_eq (cfg : Cfg) (cont : Bool) (p : GProj) (c0 : Conn) (hf : firstConn p = .ok c0)
+    (hok : GOK cfg cont p) :
+    encodeGProj cfg cont p = .ok ⟨projLeafName p.id, gAttrs cont p c0, [⟨p.id, gCols (wFlag p), encRowsG cfg p⟩]⟩ := by
+  have hw : mapE (if cont then cRowW cfg else eRowW cfg) p.instWs = .ok (p.instWs.map (gRowW cfg)) := by
+    apply mapE_ok
+    intro c hc
+    cases cont
+    · simp [eRowW, gRowW, wOf]
+    · obtain ⟨w, hw⟩ := hok.wset rfl c hc
+      simp [cRowW, gRowW, wOf, hw]
+  unfold encodeGProj
+  simp only [hf, hw, gAttrs, encRowsG, wFlag]
+
+def decRowsG (cfg : Cfg) (p : GProj) : List RowD :=
+  p.all.map (fun c => rowOf cfg.r c.id c (cfg.r (wOf c)) 0)
+
+theorem decode_encRowsG (cfg : Cfg) (h1 : cfg.r 1 = 1) (hu : cfg.unweighted = 1) (hid0 : cfg.idCol0 = true)
+    (cont : Bool) (p : GProj) (hok : GOK cfg cont p) :
+    mapIdxE (decodeConnRow cfg (gCols (wFlag p))) 0 (encRowsG cfg p) = .ok (decRowsG cfg p) := by
+  unfold encRowsG decRowsG GProj.all
+  rw [List.map_append (f := fun c => rowOf cfg.r c.id c (cfg.r (wOf c)) 0) (l₁ := p.plain ++ p.insts)]
+  apply mapIdxE_append_ok
+  · apply mapIdxE_map_ok'
+    intro i c hc
+    have hc' : c ∈ p.all := by simp only [GProj.all]; simp only [List.mem_append] at hc ⊢; exact Or.inl hc
+    rw [decode_gRowU cfg h1 hu hid0 _ i c (hok.conn c hc').exact (hok.conn c hc').idExact]
+    simp [wOf, hok.unw c hc]
+  · apply mapIdxE_map_ok'
+    intro i c hc
+    have hc' : c ∈ p.all := by simp only [GProj.all]; simp only [List.mem_append]; exact Or.inr hc
+    have hwf : wFlag p = true := by
+      simp only [wFlag, Bool.not_eq_eq_eq_not, Bool.not_true, List.isEmpty_eq_false_iff]
+      intro h; rw [h] at hc; cases hc
+    rw [hwf]
+    exact decode_gRowW cfg hid0 i c (wOf c) (hok.conn c hc').exact (hok.conn c hc').idExact
+
+
+theorem semConn_built' (r : Rat → Rat) (pre post : String) (pr po : CellRef) (c : Conn) (wopt : Option Rat)
+    (hpr : endOf pre pr = (pre, c.pre.idx)) (hpo : endOf post po = (post, c.post.idx))
+    (hr : RefOK pre c.pre ∧ RefOK post c.post) (hdel : c.delay = ⟨0, .ms⟩)
+    (hw : wopt.getD 1 = r (c.weight.getD 1)) :
+    semConn true pre post
+      { id := c.id, pre := pr, post := po,
+          preSeg := c.preSeg, postSeg := c.postSeg, preFrac := r c.preFrac, postFrac := r c.postFrac,
+          weight := wopt, syn := c.syn, preComp := c.preComp } =
+      { rConn r (semConn true pre post c) with delay := 0 } := by
+  have e1 : endOf pre c.pre = (pre, c.pre.idx) := hr.1
+  have e2 : endOf post c.post = (post, c.post.idx) := hr.2
+  simp [semConn, rConn, hpr, hpo, e1, e2, hw, hdel, delayMsSem]
+
+theorem canon_all_one (l : List SemConn) (h : ∀ c ∈ l, c.weight = 1) : canonConns l = l := by
+  unfold canonConns
+  rw [filter_all _ _ (fun c hc => by simp [h c hc]), filter_none _ _ (fun c hc => by simp [h c hc])]
+  simp
+
+theorem buildGProj_sem (cfg : Cfg) (h0 : cfg.r 0 = 0) (cont : Bool) (id pre post syn preComp : String)
+    (prePop postPop : Pop) (hp : prePop.id = pre) (hq : postPop.id = post) (all : List Conn)
+    (hc : ∀ c ∈ all, GConnOK cfg.r pre post c) (hs : ∀ c ∈ all, c.syn = syn ∧ c.preComp = preComp)
+    (hnw : prePop.insts = [] → postPop.insts = [] → ∀ c ∈ all, cfg.r (wOf c) = 1) :
+    ∃ p', buildGProj cont id pre post syn preComp prePop postPop
+            (all.map (fun c => rowOf cfg.r c.id c (cfg.r (wOf c)) 0)) = .ok p' ∧
+          semGProj p' = ⟨id, pre, post, "", canonConns (all.map (fun c => rConn cfg.r (semConn true pre post c)))⟩ := by
+  have hS : ∀ c ∈ all, (rConn cfg.r (semConn true pre post c)).delay = 0 := by
+    intro c hcm
+    simp [rConn, semConn, (hc c hcm).delay, delayMsSem, h0]
+  have hSeq : ∀ c ∈ all, ({ rConn cfg.r (semConn true pre post c) with delay := 0 } : SemConn) =
+      rConn cfg.r (semConn true pre post c) := by
+    intro c hcm
+    have := hS c hcm
+    cases hh : rConn cfg.r (semConn true pre post c)
+    rw [hh] at this
+    simp at this
+    simp [this]
+  unfold buildGProj
+  cases hinst : (!prePop.insts.isEmpty || !postPop.insts.isEmpty)
+  · have hi : prePop.insts = [] ∧ postPop.insts = [] := by simpa using hinst
+    have hw1 := hnw hi.1 hi.2
+    have hany : (all.map (fun c => rowOf cfg.r c.id c (cfg.r (wOf c)) 0)).any (fun d => d.weight ≠ 1) = false := by
+      rw [List.any_eq_false]
+      intro d hd
+      obtain ⟨c, hcm, rfl⟩ := List.mem_map.mp hd
+      simp [rowOf, hw1 c hcm]
+    simp only [Bool.not_false, hany, Bool.and_false, Bool.false_eq_true, if_false, if_true]
+    refine ⟨_, rfl, ?_⟩
+    simp only [semGProj, List.append_nil, List.map_map]
+    congr 1
+    rw [canon_all_one _ (by
+      intro s hsm
+      obtain ⟨c, hcm, rfl⟩ := List.mem_map.mp hsm
+      simp [rConn, semConn, wOf] at hw1 ⊢
+      exact hw1 c hcm)]
+    apply List.map_congr_left
+    intro c hcm
+    simp only [Function.comp, rowOf]
+    rw [← hSeq c hcm, ← (hs c hcm).1, ← (hs c hcm).2]
+    exact semConn_built' cfg.r pre post _ _ c none rfl rfl (hc c hcm).refs (hc c hcm).delay
+      (by simpa [wOf] using (hw1 c hcm).symm)
+  · simp only [Bool.not_true, Bool.false_eq_true, if_false]
+    refine ⟨_, rfl, ?_⟩
+    simp only [semGProj, List.nil_append, List.map_append, canonConns]
+    congr 1
+    congr 1
+    · rw [List.map_map]
+      apply filter_map_sem
+      · intro c hcm
+        simp only [rowOf, rConn, semConn, wOf]
+        exact decide_eq_decide.mpr Iff.rfl
+      · intro c hcm hw
+        simp only [Function.comp, rowOf]
+        have hw' : cfg.r (wOf c) = 1 := of_decide_eq_true hw
+        rw [← hSeq c hcm, ← (hs c hcm).1, ← (hs c hcm).2]
+        exact semConn_built' cfg.r pre post _ _ c none (by rw [endOf_pathFor, hp]) (by rw [endOf_pathFor, hq])
+          (hc c hcm).refs (hc c hcm).delay (by simpa [wOf] using hw'.symm)
+    · rw [List.map_map]
+      apply filter_map_sem
+      · intro c hcm
+        simp only [rowOf, rConn, semConn, wOf]
+        exact decide_eq_decide.mpr Iff.rfl
+      · intro c hcm hw
+        simp only [Function.comp, rowOf]
+        rw [← hSeq c hcm, ← (hs c hcm).1, ← (hs c hcm).2]
+        exact semConn_built' cfg.r pre post _ _ c (some (cfg.r (wOf c))) (by rw [endOf_pathFor, hp])
+          (by rw [endOf_pathFor, hq]) (hc c hcm).refs (hc c hcm).delay (by simp [wOf])
+
+
+theorem getById_id {top : List Comp} {id : String} {c : Comp} (h : getById top id = some c) : c.id = id := by
+  unfold getById at h
+  split at h
+  · cases h
+  · simpa using List.find?_some h
+
+theorem postId_eq (top : List Comp) (s : String) :
+    (match getById top s with | some c => c.id | none => s) = s := by
+  cases h : getById top s with
+  | none => rfl
+  | some c => exact getById_id h
+
+theorem decodeProjBody_elec (cfg : Cfg) (top : List Comp) (pops : List Pop) (h : PHdr) (a : Arr) (rows : List RowD)
+    (it : Item) (ht : h.typ = "electricalProjection") (hm : mapIdxE (decodeConnRow cfg a.cols) 0 a.rows = .ok rows)
+    (hc : gItem false h h.syn "" pops rows = .ok it) :
+    decodeProjBody cfg top pops h [a] =
+      .ok (it, [getById top h.syn, if h.preSyn.length > 0 then getById top h.preSyn else none]) := by
+  simp [decodeProjBody, hm, ht, hc]
+
+theorem decodeProjBody_cont (cfg : Cfg) (top : List Comp) (pops : List Pop) (h : PHdr) (a : Arr) (rows : List RowD)
+    (it : Item) (cp : Comp) (ht : h.typ = "continuousProjection")
+    (hm : mapIdxE (decodeConnRow cfg a.cols) 0 a.rows = .ok rows)
+    (hp : (if h.preSyn.length > 0 then getById top h.preSyn else none) = some cp)
+    (hc : gItem true h h.syn cp.id pops rows = .ok it) :
+    decodeProjBody cfg top pops h [a] = .ok (it, [getById top h.syn, some cp]) := by
+  cases hg : getById top h.syn with
+  | none =>
+    simp only [decodeProjBody, hm, ht, hp, hg]
+    simp [hc]
+  | some cs =>
+    have := getById_id hg
+    simp only [decodeProjBody, hm, ht, hp, hg]
+    simp [this, hc]
+
+theorem firstConn_mem {p : GProj} {c0 : Conn} (h : firstConn p = .ok c0) : c0 ∈ p.all ∧ p.all ≠ [] := by
+  unfold firstConn at h
+  unfold GProj.all
+  split at h <;> simp_all
+
+theorem gproj_roundtrip (cfg : Cfg) (h1 : cfg.r 1 = 1) (h0 : cfg.r 0 = 0) (hu : cfg.unweighted = 1)
+    (hid0 : cfg.idCol0 = true) (cont : Bool) (top : List Comp) (pops : List Pop) (p : GProj) (c0 : Conn)
+    (prePop postPop : Pop) (hf : firstConn p = .ok c0)
+    (hpre : findPop pops p.pre = .ok prePop) (hpost : findPop pops p.post = .ok postPop) (hok : GOK cfg cont p)
+    (huni : ∀ c ∈ p.all, c.syn = c0.syn ∧ c.preComp = c0.preComp)
+    (hdef : cont = true → ∃ cp, getById top c0.preComp = some cp)
+    (hnw : prePop.insts = [] → postPop.insts = [] → ∀ c ∈ p.all, cfg.r (wOf c) = 1) :
+    ∃ leaf p' objs, encodeGProj cfg cont p = .ok leaf ∧ leaf.name = projLeafName p.id ∧
+      decodeProjLeaf cfg top pops leaf = .ok ((if cont then Item.cproj p' else Item.eproj p'), objs) ∧
+      (∀ c, some c ∈ objs → c ∈ top) ∧
+      semGProj p' = canonProj (rProj cfg.r (semGProj p)) := by
+  have hpid := findPop_id hpre
+  have hqid := findPop_id hpost
+  have hne : (decRowsG cfg p).isEmpty = false := by
+    have := (firstConn_mem hf).2
+    simp only [decRowsG, List.isEmpty_eq_false_iff, ne_eq, List.map_eq_nil_iff]
+    exact this
+  have hsem : semGProj p = ⟨p.id, p.pre, p.post, "", p.all.map (semConn true p.pre p.post)⟩ := rfl
+  rw [encodeGProj_eq cfg cont p c0 hf hok]
+  cases cont
+  · -- electrical
+    obtain ⟨p', hb, hs⟩ := buildGProj_sem cfg h0 false p.id p.pre p.post c0.syn "" prePop postPop hpid hqid p.all
+      hok.conn (fun c hc => ⟨(huni c hc).1, hok.elecPre rfl c hc⟩) hnw
+    refine ⟨_, p', [getById top c0.syn, none], rfl, rfl, ?_, ?_, ?_⟩
+    · simp only [decodeProjLeaf, gAttrs, Bool.false_eq_true, if_false, projHdr_elec]
+      refine decodeProjBody_elec cfg top pops _ _ (decRowsG cfg p) _ rfl (decode_encRowsG cfg h1 hu hid0 false p hok) ?_
+      simp only [gItem, hne, Bool.false_eq_true, if_false, hpre, hpost]
+      simp only [decRowsG, hb]
+    · intro c hc
+      simp only [List.mem_cons, List.mem_nil_iff, or_false] at hc
+      rcases hc with hc | hc
+      · exact getById_mem hc.symm
+      · cases hc
+    · rw [hs, hsem]; simp only [canonProj, rProj, List.map_map]; rfl
+  · -- continuous
+    obtain ⟨cp, hcp⟩ := hdef rfl
+    have hcpid := getById_id hcp
+    obtain ⟨p', hb, hs⟩ := buildGProj_sem cfg h0 true p.id p.pre p.post c0.syn c0.preComp prePop postPop hpid hqid p.all
+      hok.conn huni hnw
+    have hlen : c0.preComp.length > 0 := by
+      unfold getById at hcp
+      split at hcp
+      · cases hcp
+      · rename_i h; omega
+    refine ⟨_, p', [getById top c0.syn, some cp], rfl, rfl, ?_, ?_, ?_⟩
+    · simp only [decodeProjLeaf, gAttrs, if_true, projHdr_cont]
+      refine decodeProjBody_cont cfg top pops _ _ (decRowsG cfg p) _ cp rfl (decode_encRowsG cfg h1 hu hid0 true p hok)
+        (by simp [hlen, hcp]) ?_
+      simp only [gItem, hne, Bool.false_eq_true, if_false, hpre, hpost, hcpid]
+      simp only [decRowsG, hb, if_true]
+    · intro c hc
+      simp only [List.mem_cons, List.mem_nil_iff, or_false] at hc
+      rcases hc with hc | hc
+      · exact getById_mem hc.symm
+      · cases hc; exact getById_mem hcp
+    · rw [hs, hsem]; simp only [canonProj, rProj, List.map_map]; rfl
+
+end NmlVerif.Hdf5
